@@ -47,3 +47,19 @@ void h_ser_raw_nonfinite(void) {   /* [raw] verbatim; non-finite numbers print a
   w_ser_nonfinite(which, buf + 4, 10, &r);
   check_buf(buf, sizeof buf, 4, 10, nul, 6, r.f0, r.f1); VWITNESS("any");
 }
+
+/* ---- C08: serializeMsgPack([i,"s0s1",b,nil], buf, cap): one conforming array; bounded buffer receives only the prefix */
+void h_mser_arr(void) {
+  int32_t i = (int32_t)vin_u8() - 128; uint8_t s[2] = {vin_u8(), vin_u8()}; uint8_t b = vin_u8() & 1;
+  uint8_t ref[16]; unsigned len = 0; ref[len++] = 0x94;
+  if (i >= 0) ref[len++] = (uint8_t)i; else if (i >= -32) ref[len++] = (uint8_t)i; else { ref[len++] = 0xD0; ref[len++] = (uint8_t)i; }
+  ref[len++] = 0xA2; ref[len++] = s[0]; ref[len++] = s[1]; ref[len++] = b ? 0xC3 : 0xC2; ref[len++] = 0xC0;
+  uint32_t cap = vin_u8(); VASSUME(cap <= len + 2);
+  uint8_t buf[24]; memset(buf, G, sizeof buf); struct S_Ser r; memset(&r, 0, sizeof r);
+  w_mser_arr((uint32_t)i, s, 2, b, buf + 4, cap, &r);
+  VOBS(r.f0); VOBS(r.f1); VOBSB(buf, 24);
+  VASSERT(r.f1 == len, "measureMsgPack == length of the reference encoding");
+  VASSERT(r.f0 == (len < cap ? len : cap), "returned count == bytes produced == min(capacity, length)");
+  for (unsigned k = 0; k < sizeof buf; k++) { if (k >= 4 && k < 4 + (len < cap ? len : cap)) VASSERT(buf[k] == ref[k - 4], "stored bytes are the prefix of the reference encoding (elements in order)"); else VASSERT(buf[k] == G, "nothing else is written (no terminator for binary output)"); }
+  if (cap < len) VWITNESS("truncated"); else VWITNESS("fits");
+}
